@@ -503,7 +503,24 @@ func (w *c12World) exec(op *c12Op) {
 		}
 		var data []byte
 		var err error
-		if op.Stream {
+		if op.Stream && op.ID%2 == 1 {
+			// an io.Reader consumer with a buffer that straddles the chunks
+			r := b.ToReader()
+			p := make([]byte, 4)
+			for {
+				n, rerr := r.Read(p)
+				data = append(data, p[:n]...)
+				if rerr == io.EOF {
+					break
+				}
+				if rerr != nil {
+					err = rerr
+					break
+				}
+			}
+			r.Close()
+			c.Count("probe_get_via_reader", 1)
+		} else if op.Stream {
 			r := b.ToChunkReader(0, 3)
 			for {
 				chunk, rerr := r.Read()
